@@ -403,6 +403,89 @@ func (t *tr) ifChain(s ast.Stmt) string {
 	}
 	return "UNKNOWN_" + pos(s)
 }
+// a statement list that returns on every path, written with any mix of
+//   if c { return r } else if ... else { return r }      (if/else chain)
+//   if c { return r }  <rest>                            (early return)
+//   switch { case c: return r ... default: return r }    (tagless switch; without default the rest is the default)
+//   return r
+func (t *tr) stmts(list []ast.Stmt) string {
+	if len(list) == 0 {
+		return "UNKNOWN_empty_statement_list"
+	}
+	switch x := list[0].(type) {
+	case *ast.ReturnStmt:
+		if len(x.Results) == 1 {
+			return t.expr(x.Results[0])
+		}
+	case *ast.BlockStmt:
+		if len(list) == 1 {
+			return t.stmts(x.List)
+		}
+	case *ast.IfStmt:
+		if x.Init != nil {
+			break
+		}
+		if x.Else == nil {
+			if len(list) < 2 {
+				break
+			}
+			return fmt.Sprintf("if %s then %s\n  else %s", t.expr(x.Cond), t.stmts(x.Body.List), t.stmts(list[1:]))
+		}
+		if len(list) == 1 {
+			return fmt.Sprintf("if %s then %s\n  else %s", t.expr(x.Cond), t.stmts(x.Body.List), t.stmts([]ast.Stmt{x.Else}))
+		}
+	case *ast.SwitchStmt:
+		if x.Init != nil || x.Tag != nil {
+			break
+		}
+		var dflt []ast.Stmt
+		type arm struct {
+			cond string
+			body []ast.Stmt
+		}
+		var arms []arm
+		ok := true
+		for _, c := range x.Body.List {
+			cc, isCC := c.(*ast.CaseClause)
+			if !isCC {
+				ok = false
+				break
+			}
+			for _, st := range cc.Body {
+				if br, isBr := st.(*ast.BranchStmt); isBr && br.Tok == token.FALLTHROUGH {
+					ok = false
+				}
+			}
+			if cc.List == nil {
+				dflt = cc.Body
+				continue
+			}
+			conds := make([]string, len(cc.List))
+			for i, e := range cc.List {
+				conds[i] = t.expr(e)
+			}
+			arms = append(arms, arm{"(" + strings.Join(conds, " || ") + ")", cc.Body})
+		}
+		if !ok {
+			break
+		}
+		if dflt == nil {
+			if len(list) < 2 {
+				break
+			}
+			dflt = list[1:]
+		} else if len(list) != 1 {
+			break
+		}
+		out := t.stmts(dflt)
+		for i := len(arms) - 1; i >= 0; i-- {
+			out = fmt.Sprintf("if %s then %s\n  else %s", arms[i].cond, t.stmts(arms[i].body), out)
+		}
+		return out
+	}
+	return "UNKNOWN_" + pos(list[0])
+}
+
 func (t *tr) block(b *ast.BlockStmt) string {
 	if len(b.List) == 1 {
 		if r, ok := b.List[0].(*ast.ReturnStmt); ok && len(r.Results) == 1 {
@@ -416,7 +499,7 @@ func genForkVersion(sb *strings.Builder, repo string) {
 	f := parseFile(filepath.Join(repo, "eth2/beacon/common/spec.go"))
 	fd := findFunc(f, "Spec", "ForkVersion")
 	sb.WriteString("(* common/spec.go: func (spec *Spec) ForkVersion(slot Slot) Version *)\n")
-	if fd == nil || len(fd.Body.List) != 2 {
+	if fd == nil || len(fd.Body.List) < 2 {
 		sb.WriteString("Definition gen_fork_version (c : fork_cfg) (slot : N) : N := UNKNOWN_ForkVersion.\n\n")
 		return
 	}
@@ -429,16 +512,16 @@ func genForkVersion(sb *strings.Builder, repo string) {
 	v := as.Lhs[0].(*ast.Ident).Name
 	rhs := t.expr(as.Rhs[0])
 	t.vars[v] = v
-	fmt.Fprintf(sb, "Definition gen_fork_version (c : fork_cfg) (slot : N) : N :=\n  let %s := %s in\n  %s.\n\n", v, rhs, t.ifChain(fd.Body.List[1]))
+	fmt.Fprintf(sb, "Definition gen_fork_version (c : fork_cfg) (slot : N) : N :=\n  let %s := %s in\n  %s.\n\n", v, rhs, t.stmts(fd.Body.List[1:]))
 }
 
 func genDecoder(sb *strings.Builder, repo string) {
 	f := parseFile(filepath.Join(repo, "eth2/beacon/fork.go"))
 	// ForkDigest
 	sb.WriteString("(* beacon/fork.go: func (d *ForkDecoder) ForkDigest(epoch common.Epoch) common.ForkDigest *)\n")
-	if fd := findFunc(f, "ForkDecoder", "ForkDigest"); fd != nil && len(fd.Body.List) == 1 {
+	if fd := findFunc(f, "ForkDecoder", "ForkDigest"); fd != nil && len(fd.Body.List) >= 1 {
 		t := &tr{cfg: "(d_cfg d)", dec: "d", vars: map[string]string{"epoch": "epoch"}}
-		fmt.Fprintf(sb, "Definition gen_decoder_fork_digest (d : decoder) (epoch : N) : bytes :=\n  %s.\n\n", t.ifChain(fd.Body.List[0]))
+		fmt.Fprintf(sb, "Definition gen_decoder_fork_digest (d : decoder) (epoch : N) : bytes :=\n  %s.\n\n", t.stmts(fd.Body.List))
 	} else {
 		sb.WriteString("Definition gen_decoder_fork_digest (d : decoder) (epoch : N) : bytes := UNKNOWN_ForkDigest.\n\n")
 	}
